@@ -1902,4 +1902,271 @@ theorem wiring_nodup (deps attrs : List Str) (events : Str → Option (List Str)
       subst this
       exact hc h2.1
 
+/-! ## `running` and `starting_up` only ever go from true to false -/
+
+structure QMono (c c' : Core) : Prop where
+  run : c.running = false → c'.running = false
+  su : c.startingUp = false → c'.startingUp = false
+
+theorem qmono_same {c c' : Core} (h1 : c'.running = c.running) (h2 : c'.startingUp = c.startingUp) : QMono c c' :=
+  ⟨fun h => h1 ▸ h, fun h => h2 ▸ h⟩
+
+theorem qmono_doQuit {P : Prog} {c : Core} : QMono c (doQuit P c).1 := by
+  unfold doQuit; split
+  · exact qmono_same rfl rfl
+  · split
+    · exact qmono_same rfl rfl
+    · exact ⟨fun _ => rfl, fun h => h⟩
+
+theorem qmono_waiterNotify {c : Core} : QMono c (waiterNotify c) := by
+  unfold waiterNotify; split <;> exact qmono_same rfl rfl
+
+theorem qmono_stepAct {P : Prog} {c : Core} (a : Act) : QMono c (stepAct P c a).1 := by
+  cases a with
+  | register n => exact qmono_same rfl rfl
+  | declare deps b => simp only [stepAct, declareStep]; split <;> exact qmono_same rfl rfl
+  | listen deps b => simp only [stepAct, declareStep]; split <;> exact qmono_same rfl rfl
+  | getDeferral => exact qmono_same rfl rfl
+  | raise => exact qmono_same rfl rfl
+  | quit =>
+    simp only [stepAct]; split
+    · exact qmono_same rfl rfl
+    · exact qmono_doQuit
+  | release k =>
+    simp only [stepAct]; split
+    · exact qmono_same rfl rfl
+    · split
+      · exact qmono_same rfl rfl
+      · split <;> exact qmono_same rfl rfl
+
+theorem qmono_stepTop {P : Prog} {c : Core} (x : Bool) (f : Frame) : QMono c (stepTop P c x f).1 := by
+  unfold stepTop
+  split
+  · cases f <;> exact qmono_same rfl rfl
+  · cases f with
+    | script acts =>
+      cases acts with
+      | nil => exact qmono_same rfl rfl
+      | cons a as => exact qmono_stepAct a
+    | pass snap ch =>
+      simp only [stepNorm]; unfold stepPass
+      split
+      · exact qmono_same rfl rfl
+      · exact qmono_same rfl rfl
+      · split <;> exact qmono_same rfl rfl
+    | cbEnd id => exact qmono_same rfl rfl
+    | notifyIfUp => simp only [stepNorm]; split; exact qmono_same rfl rfl; exact qmono_waiterNotify
+    | goUpStart => exact ⟨fun h => h, fun _ => rfl⟩
+    | goUpCont => simp only [stepNorm]; split <;> exact qmono_same rfl rfl
+    | stage2Cont => exact qmono_waiterNotify
+    | quitCont => exact qmono_same rfl rfl
+    | ticks n =>
+      cases n with
+      | zero => exact qmono_same rfl rfl
+      | succ n => exact qmono_doQuit
+    | opEnd => exact qmono_same rfl rfl
+
+theorem running_false_run {P : Prog} (n : Nat) {m : M} (h : m.core.running = false) : (run P n m).core.running = false := by
+  induction n generalizing m with
+  | zero => exact h
+  | succ n ih =>
+    unfold Pox.Core.run
+    split
+    · exact h
+    · rename_i f rest hst
+      apply ih
+      show (step P m).core.running = false
+      unfold step
+      rw [hst]
+      exact (qmono_stepTop m.exc f).run h
+
+/-! ## `_try_waiters` returns only when nothing pending is ready — wherever it was called from -/
+
+/-- a `_try_waiters` loop whose current pass has fired nothing is on top of the stack and has still to look at every pending
+waiter that is ready; loops further down are suspended inside a callback they have just fired (`changed = True`) -/
+structure PInv (m : M) : Prop where
+  top : ∀ snap rest, m.stack = .pass snap false :: rest → ∀ e ∈ m.core.waiters, ready m.core e = true → e ∈ snap
+  buried : ∀ f rest, m.stack = f :: rest → ∀ snap ch, Frame.pass snap ch ∈ rest → ch = true
+
+theorem newFrames_doQuit {P : Prog} {c : Core} : ∀ snap ch, Frame.pass snap ch ∉ (doQuit P c).2 := by
+  intro snap ch
+  unfold doQuit; split
+  · simp
+  · split <;> simp
+
+theorem newFrames_stepAct {P : Prog} {c : Core} (a : Act) :
+    ∀ snap ch, Frame.pass snap ch ∈ (stepAct P c a).2.1 → ch = true := by
+  intro snap ch
+  cases a with
+  | register n => simp [stepAct]
+  | declare deps b => simp only [stepAct, declareStep]; split <;> simp
+  | listen deps b => simp only [stepAct, declareStep]; split <;> simp
+  | getDeferral => simp [stepAct]
+  | raise => simp [stepAct]
+  | quit =>
+    simp only [stepAct]; split
+    · simp
+    · intro h; exact absurd h (newFrames_doQuit snap ch)
+  | release k =>
+    simp only [stepAct]; split
+    · simp
+    · split
+      · simp
+      · split <;> simp [enterStage2]
+
+/-- frames pushed by a step whose top frame is not a loop: any loop among them starts with `changed = True` -/
+theorem newFrames_stepTop {P : Prog} {c : Core} (x : Bool) (f : Frame) (hf : f.isPass = false ∨ x = true) :
+    ∀ snap ch, Frame.pass snap ch ∈ (stepTop P c x f).2.1 → ch = true := by
+  intro snap ch
+  unfold stepTop
+  split
+  · cases f <;> simp [stepExc]
+  · rename_i hx
+    have hfp : f.isPass = false := by
+      rcases hf with hf | hf
+      · exact hf
+      · exact absurd hf hx
+    cases f with
+    | script acts =>
+      cases acts with
+      | nil => simp [stepNorm]
+      | cons a as =>
+        intro hg
+        simp only [stepNorm, List.mem_append, List.mem_singleton] at hg
+        rcases hg with hg | hg
+        · exact newFrames_stepAct a snap ch hg
+        · cases hg
+    | pass s' ch' => simp [Frame.isPass] at hfp
+    | cbEnd id => simp [stepNorm]
+    | notifyIfUp => simp [stepNorm]
+    | goUpStart => simp [stepNorm]
+    | goUpCont => simp only [stepNorm]; split <;> simp [enterStage2]
+    | stage2Cont => simp [stepNorm]
+    | quitCont => simp [stepNorm]
+    | ticks n =>
+      cases n with
+      | zero => simp [stepNorm]
+      | succ n =>
+        intro hg
+        simp only [stepNorm, List.mem_append, List.mem_singleton] at hg
+        rcases hg with hg | hg
+        · exact absurd hg (newFrames_doQuit snap ch)
+        · cases hg
+    | opEnd => simp [stepNorm]
+
+theorem pinv_stepTop {P : Prog} {c : Core} {f : Frame} {rest : List Frame} {x : Bool}
+    (h : PInv ⟨c, f :: rest, x⟩) (hs : SInv ⟨c, f :: rest, x⟩) :
+    PInv ⟨(stepTop P c x f).1, (stepTop P c x f).2.1 ++ rest, (stepTop P c x f).2.2⟩ := by
+  have hrest : ∀ snap ch, Frame.pass snap ch ∈ rest → ch = true := h.buried f rest rfl
+  by_cases hcase : f.isPass = false ∨ x = true
+  · -- the top frame is not a running loop
+    have hnew := newFrames_stepTop (P := P) (c := c) x f hcase
+    have hall : ∀ snap ch, Frame.pass snap ch ∈ (stepTop P c x f).2.1 ++ rest → ch = true := by
+      intro snap ch hm
+      rcases List.mem_append.1 hm with hm | hm
+      · exact hnew snap ch hm
+      · exact hrest snap ch hm
+    constructor
+    · intro snap rest' hst
+      have : Frame.pass snap false ∈ (stepTop P c x f).2.1 ++ rest := by
+        show Frame.pass snap false ∈ (⟨(stepTop P c x f).1, (stepTop P c x f).2.1 ++ rest, (stepTop P c x f).2.2⟩ : M).stack
+        rw [hst]; simp
+      exact absurd (hall snap false this) (by simp)
+    · intro g rest' hst snap ch hm
+      apply hall snap ch
+      have : (stepTop P c x f).2.1 ++ rest = g :: rest' := hst
+      rw [this]; simp [hm]
+  · -- a loop is running
+    have hx : x = false := by
+      cases x with
+      | false => rfl
+      | true => exact absurd (Or.inr rfl) hcase
+    subst hx
+    cases f with
+    | pass snap ch =>
+      cases snap with
+      | nil =>
+        cases ch with
+        | false =>
+          show PInv ⟨c, rest, false⟩
+          constructor
+          · intro snap rest' hst
+            have : Frame.pass snap false ∈ rest := by rw [show rest = Frame.pass snap false :: rest' from hst]; simp
+            exact absurd (hrest snap false this) (by simp)
+          · intro g rest' hst snap ch hm
+            exact hrest snap ch (by rw [show rest = g :: rest' from hst]; simp [hm])
+        | true =>
+          show PInv ⟨c, Frame.pass c.waiters false :: rest, false⟩
+          constructor
+          · intro snap rest' hst e he _
+            injection hst with h1 _
+            injection h1 with h1 _
+            exact h1 ▸ he
+          · intro g rest' hst snap ch hm
+            injection hst with _ h2
+            exact hrest snap ch (h2 ▸ hm)
+      | cons e es =>
+        simp only [stepTop, stepNorm, stepPass, Bool.false_eq_true, ↓reduceIte]
+        split
+        · constructor
+          · intro snap rest' hst
+            simp only [List.cons_append, List.nil_append, List.cons.injEq] at hst
+            exact absurd hst.1 (by simp)
+          · intro g rest' hst snap ch' hm
+            simp only [List.cons_append, List.nil_append, List.cons.injEq] at hst
+            rw [← hst.2] at hm
+            simp only [List.mem_cons] at hm
+            rcases hm with hm | hm | hm
+            · cases hm
+            · injection hm with _ h4
+            · exact hrest snap ch' hm
+        · rename_i hno
+          constructor
+          · intro snap' rest' hst e' he' hr'
+            simp only [List.cons_append, List.nil_append, List.cons.injEq, Frame.pass.injEq] at hst
+            obtain ⟨⟨h1, h1'⟩, _⟩ := hst
+            subst h1 h1'
+            have := h.top (e :: es) rest rfl e' he' hr'
+            rcases List.mem_cons.1 this with rfl | hm
+            · exfalso; apply hno; simp [he', hr']
+            · exact hm
+          · intro g rest' hst snap ch' hm
+            simp only [List.cons_append, List.nil_append, List.cons.injEq] at hst
+            exact hrest snap ch' (hst.2 ▸ hm)
+    | script a => exact absurd (Or.inl rfl) hcase
+    | cbEnd a => exact absurd (Or.inl rfl) hcase
+    | notifyIfUp => exact absurd (Or.inl rfl) hcase
+    | goUpStart => exact absurd (Or.inl rfl) hcase
+    | goUpCont => exact absurd (Or.inl rfl) hcase
+    | stage2Cont => exact absurd (Or.inl rfl) hcase
+    | quitCont => exact absurd (Or.inl rfl) hcase
+    | ticks n => exact absurd (Or.inl rfl) hcase
+    | opEnd => exact absurd (Or.inl rfl) hcase
+
+theorem pinv_step {P : Prog} {m : M} (h : PInv m) (hs : SInv m) : PInv (step P m) := by
+  unfold step
+  split
+  · exact h
+  · rename_i f rest hst
+    have h' : PInv ⟨m.core, f :: rest, m.exc⟩ := by rw [← hst]; exact h
+    have hs' : SInv ⟨m.core, f :: rest, m.exc⟩ := by rw [← hst]; exact hs
+    exact pinv_stepTop h' hs'
+
+theorem pinv_startOp (m : M) (o : Op) : PInv (startOp o m) := by
+  cases o <;>
+  · refine ⟨?_, ?_⟩
+    · intro snap rest hst
+      simp only [startOp, List.cons.injEq] at hst
+      exact absurd hst.1 (by simp)
+    · intro g rest' hst snap ch hm
+      simp only [startOp, List.cons.injEq] at hst
+      rw [← hst.2] at hm
+      simp at hm
+
+theorem Reach.pinv {P ops m} (h : Reach P ops m) : PInv m := by
+  induction h with
+  | init => exact ⟨(fun _ _ hst => by cases hst), (fun _ _ hst => by cases hst)⟩
+  | op o hr hq ih => exact pinv_startOp _ o
+  | step hr ih => exact pinv_step ih hr.sinv
+
 end Pox.Core
